@@ -43,6 +43,9 @@ pub(crate) struct GrammarBuilder {
     next_nonterm_idx: NonTermIndex,
     next_prod_idx: ProdIndex,
     start_rule_name: String,
+    /// Names of all grammar rules. A rule generated for a repetition
+    /// (`A+` -> `A1`) must not share its name with any of them.
+    rule_names: BTreeSet<String>,
 }
 
 impl GrammarBuilder {
@@ -57,6 +60,7 @@ impl GrammarBuilder {
             next_nonterm_idx: NonTermIndex(0),
             next_prod_idx: ProdIndex(0),
             start_rule_name: "".into(),
+            rule_names: BTreeSet::new(),
         }
     }
 
@@ -232,7 +236,29 @@ impl GrammarBuilder {
         Ok(())
     }
 
+    /// The rule generated for a repetition would be merged with a user rule of
+    /// the same name, and references to it would resolve to a terminal of the
+    /// same name.
+    fn check_generated_name(&self, name: &Name, ref_name: &Name, op: &str) -> Result<()> {
+        let kind = if self.rule_names.contains(name.as_ref()) {
+            "rule"
+        } else if self.terminals.contains_key(name.as_ref()) {
+            "terminal"
+        } else {
+            return Ok(());
+        };
+        err!(
+            format!(
+                "'{}' is needed for the repetition '{}{}' but is already defined as a {}.",
+                name, ref_name, op, kind
+            ),
+            Some(self.file.clone()),
+            ref_name.span
+        )
+    }
+
     fn extract_productions_and_symbols(&mut self, rules: Vec<GrammarRule>) -> Result<()> {
+        self.rule_names = rules.iter().map(|r| r.name.as_ref().clone()).collect();
         // EMPTY non-terminal is implicit
         let nt_idx = self.get_nonterm_idx();
         self.nonterminals.insert(
@@ -526,10 +552,12 @@ impl GrammarBuilder {
             match op.rep_op {
                 RepetitionOperatorOp::ZeroOrMore => {
                     let one_name = nt_name(&ref_type, &RepetitionOperatorOp::OneOrMore);
+                    self.check_generated_name(&one_name, &ref_type, "*")?;
                     if !self.nonterminals.contains_key(one_name.as_ref()) {
                         self.create_one(one_name.clone(), &ref_type, &modifier, productions);
                     }
                     let name = nt_name(&ref_type, &op.rep_op);
+                    self.check_generated_name(&name, &ref_type, "*")?;
                     if !self.nonterminals.contains_key(name.as_ref()) {
                         self.create_zero(name.clone(), &one_name, productions);
                     }
@@ -537,6 +565,7 @@ impl GrammarBuilder {
                 }
                 RepetitionOperatorOp::OneOrMore => {
                     let name = nt_name(&ref_type, &op.rep_op);
+                    self.check_generated_name(&name, &ref_type, "+")?;
                     if !self.nonterminals.contains_key(name.as_ref()) {
                         self.create_one(name.clone(), &ref_type, &modifier, productions);
                     }
@@ -544,6 +573,7 @@ impl GrammarBuilder {
                 }
                 RepetitionOperatorOp::Optional => {
                     let name = nt_name(&ref_type, &op.rep_op);
+                    self.check_generated_name(&name, &ref_type, "?")?;
                     if !self.nonterminals.contains_key(name.as_ref()) {
                         self.create_optional(name.clone(), &ref_type, productions);
                     }
